@@ -213,6 +213,7 @@ func RebuildInto(drive, db string, cfg Config, ks *KeySet, overwrite bool, onHea
 	if err := mp.Open(); err != nil {
 		return nil, err
 	}
+	defer CloseMP(mp)
 	r, reg, err := tape.OpenTapeReadOnly(drive)
 	if err != nil {
 		return nil, err
